@@ -1758,7 +1758,8 @@ find_reg(const RegisterTable *t,
     struct maybe_register rv = { .valid = true, .handle = 0 };
 
     for (RegisterHandle i = first; i <= last; i++) {
-        if (reg_range_touches(t->entry + i, addr, 1u) == 0) {
+        /* First entry that is not entirely below addr */
+        if (reg_range_touches(t->entry + i, addr, 1u) >= 0) {
             rv.handle = i;
             return rv;
         }
@@ -1841,17 +1842,18 @@ register_foreach_in(RegisterTable *t,
     /*
      * Find the first register in the given range.
      *
-     * If addr is mapped, first looking up by area, then by entry within that
-     * area works with the least amount of operations. If addr is not mapped,
-     * we're performing the look-up over all entries within the table.
+     * This is the first register that is not entirely below addr: addr may
+     * point into a hole or into a gap between registers, in which case the
+     * range starts with the next register above it. If addr is mapped, the
+     * look-up can start at the first entry of its area (entries are sorted),
+     * otherwise it is performed over all entries within the table.
      */
     struct maybe_area startarea = find_area(t, 0, t->areas - 1u, addr);
     struct maybe_register startreg;
 
-    if (startarea.valid) {
+    if (startarea.valid && t->area[startarea.handle].entry.count > 0u) {
         const RegisterHandle first = t->area[startarea.handle].entry.first;
-        const RegisterHandle last = t->area[startarea.handle].entry.last;
-        startreg = find_reg(t, first, last, addr);
+        startreg = find_reg(t, first, t->entries - 1u, addr);
     } else {
         startreg = find_reg(t, 0, t->entries - 1u, addr);
     }
